@@ -79,15 +79,39 @@ def attr_value(form, cr):
         def fixuq(l):
             s = _fix_dollar("".join(l))
             return s + "x" if s.endswith("/") else s
-        return st.lists(st.sampled_from(
+        return st.one_of(st.lists(st.sampled_from(
             list("abc019-._:;,+*#@!?()[]{}|~^%&é日") + ["/", "/", "a/b"]),
-            min_size=1, max_size=5).map(fixuq)
+            min_size=1, max_size=5).map(fixuq), st.lists(st.sampled_from(
+                list("abc019-._:;,+*#@!?()[]{}|~^%&é日") + ["/", "/", "a/b"]),
+                min_size=1, max_size=5).map(fixuq),
+            st.sampled_from([v for v in MAGIC_VALUES if " " not in v and not v.endswith("/")]))
     bad = '"' if form == "dq" else "'"
     atoms = [a for a in TEXT_ATOMS if bad not in a] + ["<", "<b>", "/>", ">"]
     if cr:
         atoms = atoms + CR_ATOMS
-    return st.lists(st.sampled_from(atoms), max_size=6).map(
-        lambda l: _fix_dollar("".join(l)))
+    return st.one_of(
+        st.lists(st.sampled_from(atoms), max_size=6).map(
+            lambda l: _fix_dollar("".join(l))),
+        st.lists(st.sampled_from(atoms), max_size=6).map(
+            lambda l: _fix_dollar("".join(l))),
+        st.lists(st.sampled_from(atoms), max_size=6).map(
+            lambda l: _fix_dollar("".join(l))),
+        st.sampled_from(MAGIC_VALUES))
+
+
+# values that mean something to the template language when they stand
+# somewhere else (namespace URIs, keywords): as the value of an ordinary
+# attribute they are just text
+MAGIC_VALUES = [
+    "http://xml.zope.org/namespaces/tal",
+    "http://xml.zope.org/namespaces/metal",
+    "http://xml.zope.org/namespaces/i18n",
+    "http://xml.zope.org/namespaces/meta",
+    "http://www.w3.org/1999/xhtml", "http://www.w3.org/2000/xmlns/",
+    "http://www.w3.org/XML/1998/namespace",
+    "default", "nothing", "structure x", "python: 1", "string:a", "xmlns",
+    "tal:content", "false", "off", "None",
+]
 
 
 @st.composite
@@ -116,6 +140,13 @@ def attrs(draw, cr=True, prefixes=(), max_attrs=4,
                 eqr = ""
         value = draw(attr_value(form, cr))
         out.append([space, name, form, eql, eqr, value])
+    # after a digit-led name the rest of the tag is character data: a '<'
+    # in a later value would start markup of its own
+    souped = False
+    for a in out:
+        if souped or a[1][:1].isdigit():
+            souped = True
+            a[5] = a[5].replace("<", "(")
     return out
 
 
@@ -283,4 +314,10 @@ def documents(draw, max_depth=3, xml=None, cr=True, soup=False):
             draw(st.sampled_from(["", "", " "]))]
     tail = draw(st.lists(nodes(0, cr, ()), max_size=2))
     lead = draw(st.lists(nodes(0, cr, ()), max_size=1)) if not xml else []
+    if draw(st.integers(0, 9)) == 0:
+        # invisible characters at the very start (also in front of an XML
+        # declaration, which then is an ordinary processing instruction)
+        lead = [["raw", draw(st.sampled_from(
+            ["\ufeff", "\u200b", "\xa0", "\ufeff\ufeff", "\u2060",
+             "\ufffe"]))]] + lead
     return {"xml": xml, "nodes": lead + head + [root] + tail}
